@@ -278,7 +278,7 @@ def upd_lines(st):
     if a == "env":
         return ["env %s" % st["d"]]
     if a == "ns":
-        return ["ns %s" % (st["ns"] or "-")]
+        return ["%s %s" % ("nsf" if st.get("fork") else "ns", st["ns"] or "-")]
     raise InternalError("unknown step %r" % (st,))
 
 
@@ -567,11 +567,14 @@ def rand_update(rnd, ns=""):
     return {"a": "env", "d": rnd.choice(["d1", "d2", "L", "F", "d1", "d2", "nx", "unset"])}
 
 
-def random_behaviour(rnd, ns_ok):
+def random_behaviour(rnd, ns_ok, force_fork=False):
+    """force_fork: the namespace is entered by a forked child (after the parent has already made TLS calls)"""
     steps = []
-    use_ns = ns_ok and rnd.random() < 0.12
+    use_ns = ns_ok and (force_fork or rnd.random() < 0.12)
+    forkv = use_ns and (force_fork or rnd.random() < 0.4)
+    nsname = "n1"
     for d in ("d1", "d2"):
-        for ns in (["", "n1"] if use_ns else [""]):
+        for ns in (["", nsname] if use_ns else [""]):
             g = rnd.choice(GENS[:3])
             for it, c in (("cert", g[0]), ("key", g[1]), ("tc", rnd.choice(TCS)), ("crl", rnd.choice(CRLS))):
                 steps.append({"a": "put", "d": d, "it": it, "c": c, "how": "rename", "ns": ns})
@@ -579,8 +582,12 @@ def random_behaviour(rnd, ns_ok):
     for it in ("cert", "key", "tc", "crl"):
         steps.append({"a": "flipF", "it": it, "d": rnd.choice(["d1", "d2"]) if rnd.random() < 0.3 else "d1"})
     steps.append({"a": "env", "d": rnd.choice(["d1", "d2", "L", "F"])})
-    if use_ns:
-        steps.append({"a": "ns", "ns": "n1"})
+    if use_ns and forkv:
+        # the parent creates (and closes) a TLS socket with the default credentials first, then the child takes over
+        steps += [{"a": "open", "s": 6, "k": "server", "p": 0, "c": "rnd", "at": [D("def"), D("def"), D("def"), D("off")]},
+                  {"a": "ret", "s": 6, "ok": True}, {"a": "close", "s": 6}, {"a": "ns", "ns": nsname, "fork": 1}]
+    elif use_ns:
+        steps.append({"a": "ns", "ns": nsname})
     live, servers = {}, {}
     free = [1, 2, 3, 4, 5, 6]
     for _ in range(rnd.randrange(4, 10)):
@@ -605,6 +612,8 @@ def random_behaviour(rnd, ns_ok):
                 servers[s] = at
             else:
                 st = {"a": "open", "s": s, "k": "connect", "p": 0, "c": "rnd", "at": rand_des(rnd)}
+            if forkv and st["k"] != "accept" and rnd.random() < 0.7:
+                st["at"] = [D("def"), D("def"), D("def"), D("off")]      # the per-namespace file names matter
             live[s] = st["k"]
             steps += [st] + mids + [{"a": "ret", "s": s, "ok": True}]
         elif r < 0.6 and live:
@@ -613,9 +622,9 @@ def random_behaviour(rnd, ns_ok):
             servers.pop(s, None)
             steps.append({"a": "close", "s": s})
         elif r < 0.65 and use_ns:
-            steps.append({"a": "ns", "ns": rnd.choice(["n1", ""])})
+            steps.append({"a": "ns", "ns": rnd.choice([nsname, ""])})
         else:
-            u = rand_update(rnd, "n1" if use_ns and rnd.random() < 0.3 else "")
+            u = rand_update(rnd, nsname if use_ns and rnd.random() < 0.3 else "")
             u["pos"] = NOPOS
             steps.append(u)
     return steps
@@ -926,9 +935,9 @@ def check(pid, tier, seed):
         origin["deviation"] += 1
 
     # ---- 3. seeded random behaviours (larger universe: four directories, four generations, namespaces) ---------
-    for _ in range(T["n_random"]):
+    for i_r in range(T["n_random"]):
         xid += 1
-        execs.append(Builder(xid, "random", rnd, rnd.choice(modes)).run(random_behaviour(rnd, ns_ok)))
+        execs.append(Builder(xid, "random", rnd, rnd.choice(modes)).run(random_behaviour(rnd, ns_ok, force_fork=i_r < 4)))
         origin["random"] += 1
     by_x = {exec_id(e): e for e in execs}
 
